@@ -12,10 +12,11 @@ const (
 	c18Active  = iota
 	c18Started // number of jobs started so far
 	c18Cancel
-	c18Ran0  = 10 // +j: times job j ran
-	c18Done0 = 20 // +j: job j finished
-	c18Enq0  = 30 // +j: the Enqueue call containing job j has returned
-	c18Ord0  = 40 // +j: start order index of job j (1-based)
+	c18ErrSent      // the error channel of the WaitIdle caller fired (error sent or channel closed)
+	c18Ran0    = 10 // +j: times job j ran
+	c18Done0   = 20 // +j: job j finished
+	c18Enq0    = 30 // +j: the Enqueue call containing job j has returned
+	c18Ord0    = 40 // +j: start order index of job j (1-based)
 )
 
 func concBody(producers [][]int, limit int, withIdle, withWatch, slowJobs bool) func() {
@@ -124,9 +125,24 @@ func concBodyNil(producers [][]int, limit int, withIdle, withWatch, slowJobs boo
 			// the caller's optional error channel: nil, or one on which a nil error arrives (which is
 			// not an error: WaitIdle keeps waiting)
 			var errCh chan error
-			if concIdleErrCh && vsched.Choose(2) == 1 {
+			errMode := 0 // 1: a nil error arrives, 2: a real error arrives, 3: the channel is closed
+			if concIdleErrCh {
+				errMode = vsched.Choose(4)
+			}
+			if errMode != 0 {
 				errCh = make(chan error, 1)
-				T("X", func() { errCh <- nil })
+				T("X", func() {
+					switch errMode {
+					case 1:
+						errCh <- nil
+					case 2:
+						vsched.CtrSet(c18ErrSent, 1)
+						errCh <- errStream
+					case 3:
+						vsched.CtrSet(c18ErrSent, 1)
+						close(errCh)
+					}
+				})
 			}
 			if concIdleErrCh {
 				// a status poller: Enqueue with no jobs only reports the counts
@@ -148,7 +164,10 @@ func concBodyNil(producers [][]int, limit int, withIdle, withWatch, slowJobs boo
 				err := q.WaitIdle(bg, errCh)
 				label("")
 				if err != nil {
-					fail("C18.waitidle-error", "WaitIdle(bg,nil) returned %v", err)
+					// the error channel's error (or Canceled for a closed channel), and only if that source fired
+					if !(vsched.Ctr(c18ErrSent) != 0 && (errMode == 2 && err == errStream || errMode == 3 && err == context.Canceled)) {
+						fail("C18.waitidle-error", "WaitIdle returned %v (error channel mode %d)", err, errMode)
+					}
 					return
 				}
 				for _, j := range before {
@@ -212,11 +231,13 @@ func init() {
 	}
 	reg("conc-l1-idle", "ConcurrentQueue limit 1: one producer, 3 jobs in every batch split, a WaitIdle caller", 2, 3, concBody([][]int{{0, 1, 2}}, 1, true, false, true))
 	reg("conc-l2-idle", "ConcurrentQueue limit 2: one producer, 3 jobs in every batch split, a WaitIdle caller", 2, 3, concBody([][]int{{0, 1, 2}}, 2, true, false, true))
-	reg("conc-l1-idle-errch", "ConcurrentQueue limit 1: one producer, 2 slow jobs in every batch split, a WaitIdle caller whose error channel receives a nil error (or has no error channel), and a status poller calling Enqueue() with no jobs", 2, 3, concBodyOpt([][]int{{0, 1}}, 1, true, false, true, 0, true))
+	reg("conc-l1-idle-errch", "ConcurrentQueue limit 1: one producer, 2 slow jobs in every batch split, a WaitIdle caller whose error channel receives a nil error, receives an error, is closed, or is absent (choice), and a status poller calling Enqueue() with no jobs", 1, 2, concBodyOpt([][]int{{0, 1}}, 1, true, false, true, 0, true))
 	reg("conc-l1-niljob", "ConcurrentQueue limit 1: one producer, slow jobs 0, 2, 3 and a nil job at position 1, every batch split, a WaitIdle caller: the jobs behind the nil job still run, in order, and the queue becomes idle", 2, 3, concBodyNil([][]int{{0, 1, 2, 3}}, 1, true, false, true, 0, false, 1))
 	reg("conc-l2-init5", "ConcurrentQueue limit 2 constructed with 5 initial jobs (more than limit+1: the constructor has to put jobs back), a sixth job enqueued, a WaitIdle caller: per-producer start order, every job exactly once", 1, 2, concBodyInit([][]int{{0, 1, 2, 3, 4, 5}}, 2, true, false, true, 5))
 	reg("conc-l1-init4", "ConcurrentQueue limit 1 constructed with 4 initial jobs: they start in the order given", 2, 3, concBodyInit([][]int{{0, 1, 2, 3}}, 1, true, false, false, 4))
 	reg("conc-lneg-idle", "ConcurrentQueue with a negative limit (documented: unlimited): one producer, 3 jobs in every batch split, a WaitIdle caller", 1, 2, concBody([][]int{{0, 1, 2}}, -1, true, false, true))
+	reg("conc-l2-init-nil", "ConcurrentQueue limit 2 constructed with 3 initial jobs of which the second is a nil func, a fourth job enqueued, a WaitIdle caller: the non-nil jobs run exactly once and the queue becomes idle with counts 0/0", 2, 3, concBodyNil([][]int{{0, 1, 2, 3}}, 2, true, false, true, 3, false, 1))
+	reg("conc-l0-init-nil", "ConcurrentQueue unlimited constructed with 3 initial jobs of which the last is a nil func, a WaitIdle caller", 1, 2, concBodyNil([][]int{{0, 1, 2}}, 0, true, false, false, 3, false, 2))
 	reg("conc-l0-idle", "ConcurrentQueue unlimited: one producer, 3 jobs in every batch split, a WaitIdle caller", 1, 2, concBody([][]int{{0, 1, 2}}, 0, true, false, true))
 	reg("conc-l1-watch", "ConcurrentQueue limit 1: one producer, 3 instantaneous jobs in every batch split, a WatchState watcher", 2, 3, concBody([][]int{{0, 1, 2}}, 1, false, true, false))
 	reg("conc-l2-watch", "ConcurrentQueue limit 2: one producer, 3 jobs, a WatchState watcher", 1, 2, concBody([][]int{{0, 1, 2}}, 2, false, true, true))
